@@ -76,6 +76,26 @@ PROPS = {
         design_ref="DESIGN.md §5 C02",
         assumptions=[],
     ),
+    "C08": dict(
+        units=["blockstore"],
+        level="proof",
+        level_text="Deductive proof (Verus) over the real text of BlockStore::{block, try_push, update_persisted, truncate_cache}, "
+                   "BlockStoreState::{contains, head, next, verify}, Last::{number, from}, Block::number, BlockNumber::{next, prev} and "
+                   "EngineManager::queue_block: the representation invariant (cache holds consecutive numbers, ends where the queue ends, "
+                   "durable head never overtakes the queue, no gap between durable head and cache) is preserved by every operation from "
+                   "every state satisfying it; try_push accepts exactly the next number and otherwise changes nothing (no replacement of an "
+                   "accepted number); pruning drops only already-durable blocks; every queued-not-yet-durable number stays readable; block(n) "
+                   "returns block n; queue_block reaches the push only on paths where FinalBlock::verify (payload hash + valid certificate for "
+                   "the block's epoch schedule) or the pre-genesis check + external verification succeeded.",
+        level_note="Not decided: interleavings between tasks (each closure run under the watch channel's lock is taken as atomic, A4), the "
+                   "6-line persist loop of EngineManagerRunner::run and the gossip runner's number check (nested scope closures, not "
+                   "extracted), durability of the EngineInterface (A5; incoming persisted states are assumed to pass BlockStoreState::verify). "
+                   "Two statements of queue_block are abstracted by anchor-exact stubs (wait_for predicate; send_if_modified(|bs| bs.try_push(block))). "
+                   "A7: stored block numbers < 2^64-1.",
+        technique="contract-based deductive verification (Verus on extracted real functions; data-structure invariant + whole-view postconditions)",
+        design_ref="DESIGN.md §5 C08",
+        assumptions=[],
+    ),
 }
 
 NOT_APPLICABLE = {
